@@ -497,6 +497,10 @@ func genCont(rng *rand.Rand, kind string, maxRows, maxLen int, paired bool) *mCo
 	}
 	flush := rng.Intn(3) == 0
 	base := rng.Intn(21) - 10
+	wide := -1 // row-stored only: one row lies 100..330 positions away from the others, so padding runs get long
+	if !flush && !m.isLinear() && !m.colStored() && nrows > 1 && rng.Intn(12) == 0 {
+		wide = rng.Intn(nrows)
+	}
 	for i := 0; i < nrows; i++ {
 		ln := n
 		st := 0
@@ -510,6 +514,9 @@ func genCont(rng *rand.Rand, kind string, maxRows, maxLen int, paired bool) *mCo
 			if !flush {
 				ln = rng.Intn(maxLen + 1)
 				st = base + rng.Intn(9) - 4
+			}
+			if i == wide {
+				st += (100 + rng.Intn(231)) * (1 - 2*rng.Intn(2))
 			}
 		}
 		r := mRow{L: genSeqLetters(rng, m.Alpha, ln, paired), Start: st, Strand: 1, Name: fmt.Sprint("r", i)}
